@@ -88,6 +88,10 @@ def build(module, Node):
               'loop1.preserve': ['prefix_step(_iter1, j - 1)'], 'loop1.exit': ['prefix_all(_iter1)']},
         env=env)
     cs.append(walk)
+    # the condition argument of walk is documented as ignored: with any predicate it still yields every node
+    cs.append(Contract(
+        MODULE + ':Walker.walk', params={'self': SELF, 'node': NODE, 'condition': CondFn()}, yields=NODE,
+        ensures=['result == pre(node)'], loops=walk.loops, uses=walk.uses, env=env, notes='a condition is given (and ignored)'))
     filt_c = Contract(
         MODULE + ':Walker.filter', params={'self': SELF, 'node': NODE, 'condition': CondFn()}, yields=NODE,
         ensures=['result == filt(pre(node))'],
